@@ -178,7 +178,11 @@ def compare_events(ref_sessions, sessions, feats, env, label):
         rs = ref.get(s.sid)
         if rs is None:
             continue
-        for op, rop in zip(s.ops, rs.ops):
+        rops = {o.id: o for o in rs.ops}
+        for op in s.ops:
+            rop = rops.get(op.id)
+            if rop is None:
+                continue
             if op.ret is None:
                 env.violation("C17:noreturn:%s" % label, "driver died in %s with features [%s]" % (op.id, ",".join(feats)), case_text=s.case_text(op.id), workload="corpus")
                 return compared
